@@ -49,6 +49,9 @@ def main():
         warnings.filterwarnings('error', module=r'mido(\.|$)')
         warnings.filterwarnings('error', category=ResourceWarning)
         warnings.filterwarnings('error', category=DeprecationWarning, module=r'mido(\.|$)')
+    if os.environ.get('VERIF_COVER'):
+        from lib import cover
+        cover.start(os.path.join(harness.REPO, 'mido'))
     import mido
     repo = os.path.realpath(harness.REPO)
     if not os.path.realpath(mido.__file__).startswith(repo + os.sep):
@@ -106,6 +109,10 @@ def main():
     mod.main(ctx)
     if not os.environ.get('VERIF_CHILD') and not os.environ.get('VERIF_NO_CHILD'):
         run_variant(ctx, pid, args.tier, seed)
+    if os.environ.get('VERIF_COVER'):
+        from lib import cover
+        os.makedirs(os.environ['VERIF_COVER'], exist_ok=True)
+        cover.dump(os.path.join(os.environ['VERIF_COVER'], pid + ('.child' if os.environ.get('VERIF_CHILD') else '') + '.json'))
     return ctx.finish()
 
 
